@@ -483,7 +483,9 @@ fn cmd_run(args: &Args) -> i32 {
 // ---------------------------------------------------------------------------------------------
 // seeded extra inputs: raw bytes, arbitrary JSON, near-schemas, deep nestings
 // ---------------------------------------------------------------------------------------------
-const NAMES: [&str; 14] = ["A", "B", "R", "ns.A", "ns.B", "x.y.Z", "a_1", "_", "int", "1x", "a-b", "", ".A", "ns..A"];
+// (the Avro name grammar is ASCII-only: letters of other scripts and non-ASCII digits are not name characters)
+const NAMES: [&str; 20] = ["A", "B", "R", "ns.A", "ns.B", "x.y.Z", "a_1", "_", "int", "1x", "a-b", "", ".A", "ns..A",
+                           "Stra\u{df}e", "\u{3c0}", "gr\u{f6}\u{df}e.A", "ns.\u{dc}nit", "a.b\u{663}.C", "A\u{301}"];
 const PRIMS: [&str; 8] = ["null", "boolean", "int", "long", "float", "double", "bytes", "string"];
 const LOGICALS: [&str; 8] = ["date", "decimal", "uuid", "duration", "time-millis", "timestamp-micros", "big-decimal", "bogus"];
 
